@@ -1,4 +1,5 @@
 import Skc.Model.Num
+import Skc.Model.Rank
 /-! # NumPy vocabulary for the kernels that are *regenerated from the source* on every run
 
 `harness/translate.py` reads the numeric kernels of `/repo` (`wsm`, `wpm`, `ratio`, `refpoint`, `topsis`,
@@ -83,6 +84,16 @@ def asarray (x : X) : X := x
 def squeeze (x : X) : X := x
 end ops
 
+section logic
+variable {X Y : Type} {a : Type} {S : Type → Type}
+def logical_and [Bc X Y Bool Bool S] (x : X) (y : Y) : S Bool := Bc.zw (· && ·) x y
+def logical_or [Bc X Y Bool Bool S] (x : X) (y : Y) : S Bool := Bc.zw (· || ·) x y
+def less_equal [Bc X Y a a S] [LE a] [DecidableRel (α := a) (· ≤ ·)] (x : X) (y : Y) : S Bool :=
+  Bc.zw (fun p q => decide (p ≤ q)) x y
+/-- `mask.astype(int)`: `True → 1`, `False → 0`; kept as the boolean array, whose product with a number is the same -/
+def astype_int (x : X) : X := x
+end logic
+
 /-- `np.where(cond, x, y)` -/
 def «where» {C X Y bc a : Type} {S1 S2 : Type → Type} [Bc C X bc a S1] [Truthy bc] [Bc (S1 (Bool × a)) Y (Bool × a) a S2]
     (cond : C) (x : X) (y : Y) : S2 a :=
@@ -131,6 +142,22 @@ instance {a b : Type} {k : Nat} : Bc (A0 a) (Dim k b) a b A0 := ⟨fun f x y => 
 instance {a b : Type} {k : Nat} : Bc (Dim k a) (A0 b) a b A0 := ⟨fun f x y => ⟨f x.v y.v⟩⟩
 def shape0 {b : Type} {m n : Nat} [NatCast b] (_x : A2 m n b) : Dim m b := ⟨(m : b)⟩
 def shape1 {b : Type} {m n : Nat} [NatCast b] (_x : A2 m n b) : Dim n b := ⟨(n : b)⟩
+/-- `scipy.stats.entropy(pk, base=base, axis)`: `pk` is normalised to sum 1 along the axis, `entr(p) = −p log p`
+for `p > 0` and `0` at `0`, the sum is divided by `log base` -/
+def entropy {X : Type} {b : Type} {S : Type → Type} (ax : Ax) {k : Nat} [Red ax X b S] [Add b] [Mul b] [Div b] [Neg b] [OfNat b 0] [LT b] [DecidableRel (α := b) (· < ·)]
+    [MathFns b] (x : X) (base : Dim k b) : S b :=
+  Red.red ax (fun _ _ f =>
+    let tot := sumFin f
+    (sumFin fun i => let p := f i / tot; if 0 < p then -(p * MathFns.log p) else 0) / MathFns.log base.v) x
+/-- `scipy.stats.rankdata(x, "dense").astype(np.int64)`: one plus the number of distinct smaller values -/
+def rankdata_dense {b : Type} {n : Nat} [LT b] [DecidableRel (α := b) (· < ·)] [DecidableEq b] (x : A1 n b) : A1 n Nat :=
+  ⟨fun i => rankOf (List.ofFn x.v) (x.v i)⟩
+/-- `np.tile(x, (k, 1))`: `k` copies of the row `x` -/
+def tile {b c : Type} {k n : Nat} (x : A1 n b) (_k : Dim k c) : A2 k n b := ⟨fun _ j => x.v j⟩
+/-- `out = np.empty((m, k)); for idx, row in enumerate(X): out[idx] = f(row)` -/
+def map_rows {b c : Type} {m n k : Nat} (x : A2 m n b) (f : A1 n b → A1 k c) : A2 m k c := ⟨fun i => (f ⟨x.v i⟩).v⟩
+/-- `np.fill_diagonal(x, np.nan)`; `none` is NaN -/
+def fill_diagonal_nan {b : Type} {m : Nat} (x : A2 m m b) : A2 m m (Option b) := ⟨fun i j => if i = j then none else some (x.v i j)⟩
 /-- `np.full(k, v)`: `k` must be the length the result is used at -/
 def full {b : Type} {k : Nat} (_len : Dim k b) (v : A0 b) : A1 k b := ⟨fun _ => v.v⟩
 /-- `scipy.spatial.distance.cdist(X, t[True], metric=d).flatten()`: one distance per row -/
